@@ -59,8 +59,9 @@ func (c *g5Conn) Write(p []byte) (int, error) {
 	c.buf = append(c.buf, p...)
 	return len(p), nil
 }
+
 // failWrites makes every further Write fail with err (the peer is gone).
-func (c *g5Conn) failWrites(err error) { c.mu.Lock(); c.writeErr = err; c.mu.Unlock() }
+func (c *g5Conn) failWrites(err error)             { c.mu.Lock(); c.writeErr = err; c.mu.Unlock() }
 func (c *g5Conn) Len() int                         { c.mu.Lock(); defer c.mu.Unlock(); return len(c.buf) }
 func (c *g5Conn) Read([]byte) (int, error)         { return 0, io.EOF }
 func (c *g5Conn) Close() error                     { c.mu.Lock(); c.closed++; c.mu.Unlock(); return nil }
